@@ -50,13 +50,16 @@ PROGRAMS = [
 
 # long subjects of unusual make-up: anything done to the subject outside the engine call (normalisation, case folding, splitting,
 # escaping) is not covered by the engine timeout and must stay cheap too
+SHORT_SUBJECTS = [('a14!', 'a' * 14 + '!'), ('a16', 'a' * 16), ('a12b', 'a' * 12 + 'b'), ('a9', 'a' * 9)]
+SHORT_BOMBS = ['(?:a|a|a|a)+$', '(a|a|a|a|a)*$', '(a*)*$', '((a|aa)+)+$', '(?:a|a|a|a|a|a)+!!']
+EXTRA_ARGS = [('', None), ('', 60), ('', 0), ('i', None, None), (None, None), ('', -1), ('', 10 ** 9)]
 ODD_SUBJECTS = [('comb60000', '\u0315\u0300' * 30000), ('accents100000', '\u00e9' * 100000), ('blank100000', ' ' * 100000),
                 ('nl50000', 'a\n' * 50000), ('astral30000', '\U0001F600' * 30000), ('casefold50000', '\u00df\u0130' * 25000)]
 
 
 def subjects(n):
     s = [('a30b', 'a' * 30 + 'b'), ('a1000', 'a' * 1000), ('a100000', 'a' * 100000), ('manymatches', ('a' * 12 + '! ') * 300),
-         ('ab50000', 'ab' * 50000)] + ODD_SUBJECTS
+         ('ab50000', 'ab' * 50000)] + ODD_SUBJECTS + SHORT_SUBJECTS
     return s[:n]
 
 
@@ -212,7 +215,9 @@ def _child(conn, jobs, mem):
         f = api.FUNCTIONS[fname]
         t = time.perf_counter()
         try:
-            if flags:
+            if isinstance(flags, (tuple, list)):
+                f(s, pattern, *flags)       # more positional arguments than the builtin documents
+            elif flags:
                 f(s, pattern, flags)
             else:
                 f(s, pattern)
@@ -227,7 +232,9 @@ def _child(conn, jobs, mem):
             out['first_call_s'] = out['call_s']
             t = time.perf_counter()
             try:
-                if flags:
+                if isinstance(flags, (tuple, list)):
+                    f(s, pattern, *flags)
+                elif flags:
                     f(s, pattern, flags)
                 else:
                     f(s, pattern)
@@ -361,6 +368,17 @@ def work(task):
         for fl in ODD_FLAGS:
             for fn in FUNCS:
                 jobs.append(('a+b', subs[0], fl, fn))
+        # short subjects are not cheap subjects: many-way alternations are exponential in 14 characters
+        for sname, _ in SHORT_SUBJECTS:
+            for pat in SHORT_BOMBS:
+                for fl in ('', 'ims'):
+                    for fn in FUNCS:
+                        jobs.append((pat, sname, fl, fn))
+        # a program may pass more arguments than documented: none of them may buy it a longer (or no) timeout
+        for xa in EXTRA_ARGS:
+            for fn in FUNCS:
+                jobs.append(('(a|aa)+$', subs[0], xa, fn))
+                jobs.append(('(?:a|a|a|a)+$', 'a14!', xa, fn))
         for sname, _ in ODD_SUBJECTS:
             for pat in ('x', 'a+b', r'\w+\d', r'(\s*)*$'):
                 for fl in ('', 'ims'):
@@ -439,6 +457,8 @@ def main(tier, seed, t0):
                 sig = f'call-time:{fname}:{features(pattern) if fname != "__program__" else "program"}' + (':after-previous-call' if len(c) > 2 else '')
                 if flags in ODD_FLAGS:
                     sig = f'call-time:{fname}:flag-string'
+                if isinstance(flags, (tuple, list)):
+                    sig = f'call-time:{fname}:extra-arguments'
                 what = 'a regex builtin exceeded the time bound'
             total.violation(sig, what, {'pattern': pattern, 'subject': sname, 'flags': flags, 'function': fname,
                                         'expected': f'<= {bnd:.2f} s', 'observed': 'killed after %.0f s of silence' % KILL_S if 'killed' in last else repr(last)})
